@@ -17,6 +17,9 @@ BUILT={
  "C03":("bounded-exhaustive enumeration; all adversarial witnesses explored on the reference Script machine",
         "For every sane descriptor up to the node bound and every world in which the non-malleable satisfier succeeds, ALL witnesses over the third-party alphabet are explored depth-first on every script of the output (every tap leaf) under standardness flags; the solution set must be exactly the original. A positive control on non-sane scripts shows the search does find alternative witnesses.",
         "3 C03"),
+ "C04":("bounded-exhaustive term enumeration plus exhaustive token-sequence / single-edit / raw-byte enumeration of decoder inputs",
+        "(a) every well-typed term up to the node bound in four contexts: encoding equals an independent reference encoder, script_size equals length, decode(encode) re-encodes byte-identically with identical type and equal truth table; (b) every script token sequence up to length L, every single edit and alternative push encoding of every valid script of <= 5 nodes, every raw byte string up to the length bound: whatever any decode entry point accepts must re-encode to exactly the input and be well typed.",
+        "3 C04"),
  "C05":("complete enumeration of the finite type domain against transcribed specification tables",
         "Every unary typing rule on all 960 child types, every binary rule and thresh(k,2) on all 960^2 pairs, and_or on the cube of reachable types plus correctness/malleability cubes (thorough: all 960^3), wider thresholds over reachable child types: accept/reject equality, never-stronger on inhabitable types, exact equality on reachable types minus a printed deviation list; Type::type_check dispatch of every Terminal variant.",
         "3 C05"),
@@ -26,6 +29,9 @@ BUILT={
  "C07":("bounded-exhaustive enumeration; policy truth vs witness existence by exhaustive witness search",
         "For every liftable descriptor up to the node bound (all wrappings, duplicate keys, 2/3-leaf tap trees) and every world, the reference evaluator's truth value of lift(d) is compared in both directions with the existence of a witness found by exhaustive exploration of the reference Script machine over the caller's alphabet.",
         "3 C07"),
+ "C10":("bounded-exhaustive round-trip enumeration; exhaustive substitution enumeration and explicit-state syndrome search of the checksum code model",
+        "Every well-typed term up to the node bound (display equals a reference printer, sugared and unsugared spellings parse to the same structure, re-display is a fixed point), descriptor wrappings with every tap tree shape up to 5 leaves, enumerated policies and the descriptor-key grammar round-trip. Checksum: library equals an independent BIP-380 model on every enumerated string and every (position, character); ALL 1- and 2-character substitutions of short checksummed descriptors are rejected by Descriptor::from_str / verify_checksum; the code model's error patterns of weight <= 2 are enumerated completely and have pairwise distinct syndromes (=> every <= 4-symbol error detected) up to the stated length.",
+        "3 C10"),
  "C13":("bounded-exhaustive enumeration of spends and all single (thorough: pair) mutations; interpreter vs reference Script machine",
         "Every library satisfaction of every sane descriptor up to the node bound in every world, every single-element mutation of its witness / scriptSig (thorough: all pairs), and satisfactions fabricated with ignored time locks are given to Interpreter::iter and to the reference Script machine (consensus flags): interpreter-accept implies machine-accept, reported constraints equal the machine's trace and satisfy the lifted policy, and the library's own satisfactions are accepted.",
         "3 C13"),
